@@ -254,7 +254,7 @@ func (c *Ctx) finish(verifDir string, start time.Time, seed int, extra map[strin
 	var samples []interface{}
 	perRule := map[string]int{}
 	for _, o := range c.obs {
-		if o.status == Discharged || o.known {
+		if o.status == Discharged {
 			discharged++
 		}
 		if o.Nontrivial {
